@@ -19,6 +19,10 @@ def run(ctx: Ctx):
     printers.check_array_safe(ctx, "R14.a", "numpy")
     printers.check_not_normalised(ctx, "R14.a")
 
+    ctx.rule("R14.c", "what reaches the printers is what the front end builds: conditionals and logical connectives are constructed as the language defines them (a rewrite of the condition in sympytools.Conditional / the builder can leave an unevaluated Not at the top of an assignment, which the printer writes as the scalar-only `not`)", floor=20)
+    from .c01 import front_end
+
+    front_end(ctx, {k_: "R14.c" for k_ in "abcde"}, declare=False)
     ctx.rule("R14.b", "result shapes: _shape_info covers the three Shape members with the batch axis states.shape[1]; monitor/missing values allocate numpy.zeros(shape); rhs and schemes allocate zeros_like(states)", floor=9)
     cgc = sm.cls("codegen/base.py", "CodeGenerator")
     f = cgc.methods["_shape_info"]
